@@ -607,6 +607,37 @@ pub fn classify(c: &Case, m: &Model, cx: &mut Cx) {
     let delivered: usize = m.main.emits.values().map(|v| v.len()).sum();
     cx.class_if(m.accepted && delivered == 0, "accepted-but-no-reachable-leaf");
     cx.class_if(delivered >= 2, "delivered-to-2+-leaves");
+    // typed-lookup filters (min level / kind / harness pull leaf) in the effective filter
+    {
+        let eff = if m.uses_when { c.when.as_ref().unwrap() } else { &c.filter };
+        let (mut min, mut kind, mut pull, mut shadow, mut shadow_generic) = (false, false, false, false, false);
+        eff.visit_preds(true, false, &mut |p, generic| {
+            if let Some(slot) = p.typed_slot() {
+                match p {
+                    Pred::MinLevel { .. } => min = true,
+                    Pred::KindIs(_) => kind = true,
+                    _ => pull = true,
+                }
+                if m.own_blocks_ambient[slot] {
+                    shadow = true;
+                    shadow_generic |= generic;
+                }
+            }
+        });
+        cx.class_if(min, "typed-filter:min-level");
+        cx.class_if(kind, "typed-filter:kind");
+        cx.class_if(pull, "typed-filter:pull");
+        cx.class_if(shadow, "typed-filter:own-value-does-not-cast/ambient-does");
+        cx.class_if(shadow_generic, "typed-filter:own-value-does-not-cast/ambient-does/leaf-sees-props-generically");
+        cx.class_if(
+            m.own_blocks_ambient.iter().any(|b| *b),
+            "typed-lookup:own-value-does-not-cast/ambient-does",
+        );
+        cx.class_if(
+            m.full.typed().iter().any(|t| t.is_some()),
+            "typed-lookup:some-typed-key-casts",
+        );
+    }
     cx.class_if(c.filter.nodes() >= 5, "filter-tree>=5-nodes");
     cx.class_if(c.dest.nodes() >= 5, "dest-tree>=5-nodes");
     cx.class_if(c.dest.nodes() >= 9, "dest-tree>=9-nodes");
